@@ -14,10 +14,11 @@ Theorem C19_same_extent_exact : forall n s o, 0 < s -> 0 <= o -> 0 <= n -> (o * 
 Proof. exact out_same_exact. Qed.
 Print Assumptions C19_same_extent_exact.
 
-(* the reported count is the number of tuples of the layer's loop nest, for every geometry *)
-Theorem C19_conv2d_count_is_loop_nest : forall ho wo co kh kw ci,
-  0 <= ho -> 0 <= wo -> 0 <= co -> 0 <= kh -> 0 <= kw -> 0 <= ci ->
-  oc_conv2d ho wo co kh kw ci = Z.of_nat (length (conv2d_nest ho wo co kh kw ci)).
+(* the reported count is the number of tuples of the layer's loop nest, for every geometry, group count,
+   depth multiplier and number of pooling positions *)
+Theorem C19_conv2d_count_is_loop_nest : forall ho wo co kh kw ci g,
+  0 <= ho -> 0 <= wo -> 0 <= co -> 0 <= kh -> 0 <= kw -> 0 <= ci -> 0 < g ->
+  oc_conv2d ho wo co kh kw ci g = Z.of_nat (length (conv2d_nest ho wo co kh kw (ci / g))).
 Proof. exact conv2d_count_is_nest. Qed.
 Print Assumptions C19_conv2d_count_is_loop_nest.
 Theorem C19_conv1d_count_is_loop_nest : forall to co k ci, 0 <= to -> 0 <= co -> 0 <= k -> 0 <= ci ->
@@ -28,29 +29,29 @@ Theorem C19_dense_count_is_loop_nest : forall ni no, 0 <= ni -> 0 <= no ->
   oc_dense ni no = Z.of_nat (length (dense_nest ni no)).
 Proof. exact dense_count_is_nest. Qed.
 Print Assumptions C19_dense_count_is_loop_nest.
-Theorem C19_depthwise_count_is_loop_nest_partial : forall ho wo ci kh kw,
-  0 <= ho -> 0 <= wo -> 0 <= ci -> 0 <= kh -> 0 <= kw ->
-  oc_depthwise kh kw ho wo ci = Z.of_nat (length (depthwise_nest ho wo ci 1 kh kw)).
-Proof. exact depthwise_count_is_nest_dm1. Qed.
-Print Assumptions C19_depthwise_count_is_loop_nest_partial.
-Theorem C19_pooling_count_is_loop_nest_partial : forall c ph pw, 0 <= c -> 0 <= ph -> 0 <= pw ->
-  oc_pool c ph pw = Z.of_nat (length (pool_nest 1 1 c ph pw)).
-Proof. exact pool_count_is_nest_global. Qed.
-Print Assumptions C19_pooling_count_is_loop_nest_partial.
+Theorem C19_depthwise_count_is_loop_nest : forall ho wo ci dm kh kw,
+  0 <= ho -> 0 <= wo -> 0 <= ci -> 0 <= dm -> 0 <= kh -> 0 <= kw ->
+  oc_depthwise kh kw ho wo (ci * dm) = Z.of_nat (length (depthwise_nest ho wo ci dm kh kw)).
+Proof. exact depthwise_count_is_nest. Qed.
+Print Assumptions C19_depthwise_count_is_loop_nest.
+Theorem C19_pooling_count_is_loop_nest : forall ho wo c ph pw, 0 <= ho -> 0 <= wo -> 0 <= c -> 0 <= ph -> 0 <= pw ->
+  oc_pool (ho * wo) c ph pw = Z.of_nat (length (pool_nest ho wo c ph pw)).
+Proof. exact pool_count_is_nest. Qed.
+Print Assumptions C19_pooling_count_is_loop_nest.
 
-(* refuted parts of the full statement: known findings, replayed on the implementation *)
-Theorem C19_grouped_conv_refuted : exists ho wo co kh kw ci g, 1 < g /\ ci mod g = 0 /\
-  oc_conv2d ho wo co kh kw ci <> Z.of_nat (length (conv2d_nest ho wo co kh kw (ci / g))).
-Proof. exact grouped_conv_count_refuted. Qed.
-Print Assumptions C19_grouped_conv_refuted.
-Theorem C19_depthwise_multiplier_refuted : exists ho wo ci dm kh kw, 1 < dm /\
-  oc_depthwise kh kw ho wo ci <> Z.of_nat (length (depthwise_nest ho wo ci dm kh kw)).
-Proof. exact depthwise_multiplier_count_refuted. Qed.
-Print Assumptions C19_depthwise_multiplier_refuted.
-Theorem C19_pooling_positions_refuted : exists ho wo c ph pw, 1 < ho * wo /\
-  oc_pool c ph pw <> Z.of_nat (length (pool_nest ho wo c ph pw)).
-Proof. exact pooling_count_refuted. Qed.
-Print Assumptions C19_pooling_positions_refuted.
+(* the formulas before the three repairs were refuted by these witnesses (fix: commits 69dfa10, 790ab99, d98f7e6) *)
+Theorem C19_grouped_conv_old_refuted : exists ho wo co kh kw ci g, 1 < g /\ ci mod g = 0 /\
+  oc_conv2d_old ho wo co kh kw ci <> Z.of_nat (length (conv2d_nest ho wo co kh kw (ci / g))).
+Proof. exact grouped_conv_count_old_refuted. Qed.
+Print Assumptions C19_grouped_conv_old_refuted.
+Theorem C19_depthwise_multiplier_old_refuted : exists ho wo ci dm kh kw, 1 < dm /\
+  oc_depthwise_old kh kw ho wo ci <> Z.of_nat (length (depthwise_nest ho wo ci dm kh kw)).
+Proof. exact depthwise_multiplier_count_old_refuted. Qed.
+Print Assumptions C19_depthwise_multiplier_old_refuted.
+Theorem C19_pooling_positions_old_refuted : exists ho wo c ph pw, 1 < ho * wo /\
+  oc_pool_old c ph pw <> Z.of_nat (length (pool_nest ho wo c ph pw)).
+Proof. exact pooling_count_old_refuted. Qed.
+Print Assumptions C19_pooling_positions_old_refuted.
 
 (* energy report *)
 Open Scope Q_scope.
@@ -73,6 +74,6 @@ Proof. exact extract_sum_spec. Qed.
 Print Assumptions C19_extract_sum_is_floor_of_selected_entries.
 
 Example C19_nonvacuous :
-  (out_valid 8 3 2 1 = 3 /\ out_same 8 3 = 3 /\ oc_conv2d 3 3 4 3 3 2 = 648 /\
+  (out_valid 8 3 2 1 = 3 /\ out_same 8 3 = 3 /\ oc_conv2d 3 3 4 3 3 4 2 = 648 /\
    length (conv2d_nest 3 3 4 3 3 2) = 648%nat)%Z.
 Proof. vm_compute. repeat split. Qed.
